@@ -17,7 +17,7 @@ LEAFSETS = {
     'sq3': [T.A('a', (2,)), T.A('b', (3,)), T.A('A', (2, 2)), T.A('C', (3, 3))],
     'mixed': [T.A('a', (2,)), T.A('A', (2, 2)), T.A('I', (2,), 'i'), T.A('p', (2,), 'b'), T.A('z', (2,), 'c')],
     'int': [T.A('i', (), 'i'), T.A('I', (2,), 'i'), ('range', (3,)), T.LOOP_L, ('const', (-2, 'i')), ('const', (3, 'i')), ('const', ((1, 0), 'i')),
-            ('toint', (), T.A('p', (2,), 'b')), ('const', ((2, 0, 1), 'i'))],
+            ('toint', (), T.A('p', (2,), 'b')), ('const', ((2, 0, 1), 'i')), ('const', ((3, 5, 2), 'i')), ('const', ((4, 1, 3), 'i'))],
     'all': T.FLOAT_LEAVES + T.INT_LEAVES + T.BOOL_LEAVES + T.COMPLEX_LEAVES,
 }
 
